@@ -33,4 +33,24 @@ def specCommit (idx sw par : Nat) (expected : Nat → Nat → Bool) (payload : L
   payload.length == 46 && payload.take 4 == [1, idx.toUInt8, sw.toUInt8, par.toUInt8] &&
     (List.range 7).all fun d => (List.range 48).all fun i => slotBit (payload.drop 4) d i == expected d i
 
+/-- one `set_state` call with aligned times on the committed schedule, as the statement reads it:
+day (Sunday = 0), whether the state is one of the four and whether it is an "on" state, start
+slot `i`, end slot number `j` (0 = 00:00) -/
+structure SlotEdit where
+  day : Nat
+  valid : Bool
+  on : Bool
+  i : Nat
+  j : Nat
+deriving Repr
+
+/-- what the edit does to slot `k` of day `d` currently holding `v`: an invalid state or an end
+not after the start changes nothing; otherwise the slots `i .. endSlot j` of its day take the state -/
+def SlotEdit.apply (ed : SlotEdit) (d k : Nat) (v : Bool) : Bool :=
+  if ed.valid = true ∧ ed.i < endSlot ed.j ∧ ed.day = d ∧ ed.i ≤ k ∧ k ≤ endSlot ed.j then ed.on else v
+
+/-- "the received bitmap with exactly the edits applied", slot by slot -/
+def expectedSlot (base : Nat → Nat → Bool) (edits : List SlotEdit) (d k : Nat) : Bool :=
+  edits.foldl (fun v ed => ed.apply d k v) (base d k)
+
 end PlumVerif.C18
